@@ -1312,9 +1312,13 @@ def ncf2ioapi(
 
     tv[:yyyyjjj.size, :, 0] = yyyyjjj[:, None].repeat(nvar, 1)
     tv[:yyyyjjj.size, :, 1] = hhmmss[:, None].repeat(nvar, 1)
-    dt = (times[-1] - times[0]).total_seconds() / (len(times) - 1)
-    tmpd = datetime.datetime(1900, 1, 1) + datetime.timedelta(seconds=dt)
-    ofile.TSTEP = int(tmpd.strftime('%H%M%S'))
+    if len(times) > 1:
+        dt = (times[-1] - times[0]).total_seconds() / (len(times) - 1)
+        tmpd = datetime.datetime(1900, 1, 1) + datetime.timedelta(seconds=dt)
+        ofile.TSTEP = int(tmpd.strftime('%H%M%S'))
+    else:
+        # one step: there is no interval to measure; keep the input's step
+        ofile.TSTEP = int(fileprops.get('TSTEP', 0))
     ofile.SDATE = int(times[0].strftime('%Y%j'))
     ofile.STIME = int(times[0].strftime('%H%M%S'))
     # if (
